@@ -47,6 +47,15 @@ CHECKS["C15"] = dict(level="exploration", engine="E3", ref="5/C15",
    technique="bounded-exhaustive enumeration of the RFC 2131 s.4.1 decision table through the real HandleMsg4 + sendEthernet (frame captured before the raw socket)",
    text="giaddr x ciaddr in {0, routable, link-local, broadcast} x broadcast flag x reply type {OFFER, ACK, NAK} x yiaddr x listener {unbound, bound to each host interface} x receiving interface: destination address and port, interface pinning, and for link-level replies the Ethernet/IP/UDP headers and payload of the serialised frame are compared with the cascade as worded in the property.",
    note=SRV_NOTE + " Interface set is the sandbox's (lo has no MAC, so link-level frames on lo are not produced).")
+
+CHECKS["C17"] = dict(level="exploration", engine="E3", ref="5/C17",
+   technique="bounded-exhaustive enumeration: every accepted argument vector of the alphabet x every PRL/ORO subset and order x response-stub variants, one process per configuration, against independent RFC encoders",
+   text="For each option plugin and each accepted argument vector of the alphabet (own process: configuration lives in package globals) the real handler is called with every request of a battery (parameter/option request list absent, empty, unrelated, every subset of the plugin's codes in every order, duplicates; OFFER/ACK; yiaddr set or not; lease time already present; option 116 present) and the returned response is compared on the wire with independently encoded expected values and the entitlement rules of the property, including stop/nil behaviour of ipv6only and autoconfigure and 'nothing else changes'.",
+   note="Handlers are called directly with library-parsed requests and server-style response stubs. An empty parameter request list is not asserted. DHCPv6 boot-file parameters are checked for presence only.")
+CHECKS["C19"] = dict(level="exploration", engine="E3", ref="5/C19",
+   technique="bounded-exhaustive enumeration of argument vectors (arity 0..2, thorough 0..3, over per-plugin atom alphabets incl. foreign kinds) x request battery, one process per vector",
+   text="Every argument vector up to the arity bound over valid, boundary and invalid atoms of each argument kind for all 15 built-in plugins is passed to the real Setup in its own process; if accepted, the handler is driven with the request battery (incl. IA_NA/IA_PD with in-pool and v4-mapped hints, relayed) and must not panic, and its reply must survive ToBytes->FromBytes->ToBytes byte-identically with every plugin-owned option re-parsing to the same bytes under a typed parser. A worker that dies (log.Fatal, runtime fatal) is re-run alone and reported.",
+   note="Values that are silently truncated but still well-formed on the wire (mtu 65536 -> 0) satisfy the stated round-trip criterion and are not reported. sleep durations <= 1ms, pool orders <= 16.")
 ALL = ["C%02d" % i for i in range(1, 21)]
 NA_REASON = "check not built yet in this session (planned, see DESIGN.md section 5); will be claimed once its machinery exists"
 m = {
@@ -62,7 +71,7 @@ m = {
  "engines": [
   {"name": "E1 explicit-state BFS over real handlers", "path": "mc/explore", "serves_properties": ["C04","C05","C06","C07"], "kind_free_text": "explicit-state model checking where every transition is an execution of the real code on a fresh instance (replay of the shortest path + 1 op); state key = hook dump + observer ghost"},
   {"name": "E2 cooperative scheduler + preemption-bounded DFS", "path": "mc/sched + mc/verifsched + mc/cmd/instr", "serves_properties": [], "kind_free_text": "stateless model checking of the implementation: sync replaced by a shim through go build -overlay, Yield() injected before every statement, all schedules up to a preemption bound"},
-  {"name": "E3 bounded-exhaustive enumerator vs reference model", "path": "mc/checks/*", "serves_properties": ["C11","C12","C13","C14","C15","C20"], "kind_free_text": "complete cross product of small per-dimension alphabets executed on the real code and compared with a reference written from the property text"},
+  {"name": "E3 bounded-exhaustive enumerator vs reference model", "path": "mc/checks/*", "serves_properties": ["C11","C12","C13","C14","C15","C17","C19","C20"], "kind_free_text": "complete cross product of small per-dimension alphabets executed on the real code and compared with a reference written from the property text"},
  ],
  "checks": [],
  "not_applicable": [],
